@@ -86,6 +86,11 @@ var zzTruthPositions = []string{
 	"if (!X) { return 1; } return 0;",
 	"return (!X && true) ? 1 : 0;",
 	"y = !X; return y ? 1 : 0;",
+	// a ternary over the value as the condition itself (literal arms)
+	"if (X ? true : false) { return 1; } return 0;",
+	"if (X ? false : true) { return 0; } return 1;",
+	"n = 0; while (X ? n < 1 : false) { n = n + 1; } return n;",
+	"return (X ? false : true) ? 0 : 1;",
 }
 
 func zzSubst(tmpl, expr string) string {
@@ -131,7 +136,7 @@ func ZZ_C05_Positions(sv *zzsv.T) {
 	if err != nil {
 		return
 	}
-	if pos > 7 {
+	if pos > 7 && pos < 12 {
 		// positions that consume !v: true for false and null only
 		want = val.t == tNull || (val.t == tBool && !val.b)
 	}
